@@ -20,6 +20,7 @@ AREA = "C12"
 SRC = {
     "prime_h": "src/kernel/integer/givintprime.h",
     "prime_C": "src/kernel/integer/givintprime.C",
+    "prime_inl": "src/kernel/integer/givintprime.inl",
     "factor_h": "src/kernel/integer/givintfactor.h",
     "factor_inl": "src/kernel/integer/givintfactor.inl",
     "misc_C": "src/kernel/gmp++/gmp++_int_misc.C",
@@ -247,6 +248,24 @@ def gen_tables():
     fi = read_src("factor_inl")
     b = func_body(fi, r"void\s+IntFactorDom<MyRandIter>::set\s*\(\s*Container\s*&\s*Lf\s*,\s*const\s+Rep\s*&\s*n\s*\)\s*const\s*\{", "IntFactorDom::set(Lf, n)")
     K["SET1_ABS"] = bool(re.search(r"Rep::neg\s*\(\s*nn\s*,\s*n\s*\)", b))
+    # --- the random walk: Pollard_cst, and whether factor / Pollard / Lenstra copy their argument when called in place
+    K["POLLARD_CST"] = ev("Pollard_cst", macros_of(fhc))
+    inplace = r"if\s*\(\s*&\s*%s\s*==\s*&\s*n\s*\)"
+    b = func_body(fhc, r"Rep\s*&\s*factor\s*\(\s*Rep\s*&\s*r\s*,\s*const\s+Rep\s*&\s*n\s*,[^)]*\)\s*const\s*\{", "IntFactorDom::factor")
+    K["FACTOR_INPLACE_GUARD"] = bool(re.search(inplace % "r", b))
+    b = func_body(fi, r"IntFactorDom<MyRandIter>::Pollard\s*\(\s*const\s+MyRandIter\s*&\s*gen\s*,\s*Rep\s*&\s*g\s*,\s*const\s+Rep\s*&\s*n\s*,[^)]*\)\s*const\s*\{", "IntFactorDom::Pollard")
+    K["POLLARD_INPLACE_GUARD"] = bool(re.search(inplace % "g", b))
+    if not re.search(r"this\s*->\s*random\s*\(\s*gen\s*,\s*y\s*,\s*n\s*\)", b) or not re.search(r"Pollard\s*\(\s*gen\s*,\s*g\s*,\s*n\s*,\s*threshold\s*-\s*c\s*\)", b):
+        raise GenError("IntFactorDom::Pollard left the translated shape (this->random(gen, y, n); restart Pollard(gen, g, n, threshold-c))")
+    b = func_body(fi, r"IntFactorDom<MyRandIter>::Lenstra\s*\(\s*const\s+MyRandIter\s*&\s*gen\s*,\s*Rep\s*&\s*g\s*,\s*const\s+Rep\s*&\s*n\s*,[^)]*\)\s*const\s*\{", "IntFactorDom::Lenstra")
+    K["LENSTRA_INPLACE_GUARD"] = bool(re.search(inplace % "g", b))
+    # --- Miller: where the witness comes from
+    pi = read_src("prime_inl")
+    b = func_body(pi, r"IntPrimeDom::Miller\s*\(\s*MyRandIter\s*&\s*g\s*,\s*const\s+Integer\s*&\s*n\s*\)\s*const\s*\{", "IntPrimeDom::Miller")
+    mw = re.search(r"\b(nonzerorandom|random)\s*\(\s*g\s*,\s*a\s*,\s*n\s*\)\s*;", b)
+    if not mw:
+        raise GenError("IntPrimeDom::Miller left the translated shape (random(g, a, n) / nonzerorandom(g, a, n))")
+    K["MILLER_NONZERO"] = mw.group(1) == "nonzerorandom"
     # --- givprimes16.C
     pt = read_src("primes16_C")
     m = re.search(r"Primes16::_size\s*=\s*(\w+)\s*;", pt)
@@ -275,12 +294,13 @@ def coq_of_tables(K):
             "PREVIN_LOW", "PREVIN_LOWVAL", "PREVIN_ODD", "PREVIN_EVEN", "PREVIN_STEP",
             "PREV_LOW", "PREV_LOWVAL", "PREV_ODD", "PREV_EVEN", "PREV_STEP",
             "PPREV_LOW", "PPREV_LOWVAL", "PPREV_ODD", "PPREV_EVEN", "PPREV_STEP",
-            "SMALLEST_OMITTED_PRIME", "PROD_FIRST", "PROD_SECOND", "FIRST_DEFAULT", "SECOND_DEFAULT", "PRIMES16_SIZE"]
+            "SMALLEST_OMITTED_PRIME", "PROD_FIRST", "PROD_SECOND", "FIRST_DEFAULT", "SECOND_DEFAULT", "PRIMES16_SIZE", "POLLARD_CST"]
     for s in scal:
         L.append("Definition %s : Z := %s." % (s, "(%d)" % K[s] if K[s] < 0 else "%d" % K[s]))
     for s in ("ISPRIME_GUARD", "IPP_ZERO_RET"):
         L.append("Definition %s : Z := %s." % (s, "(%d)" % K[s] if K[s] < 0 else "%d" % K[s]))
-    for s in ("ISPRIME_HAS_GUARD", "IPP_NEG_GUARD", "IPP_RECURSE", "PRIMEFACTOR_GUARD", "SET1_ABS"):
+    for s in ("ISPRIME_HAS_GUARD", "IPP_NEG_GUARD", "IPP_RECURSE", "PRIMEFACTOR_GUARD", "SET1_ABS",
+              "FACTOR_INPLACE_GUARD", "POLLARD_INPLACE_GUARD", "LENSTRA_INPLACE_GUARD", "MILLER_NONZERO"):
         L.append("Definition %s : bool := %s." % (s, "true" if K[s] else "false"))
     for s in ("IP", "IP2", "PP_PRIMES", "PRIMES16"):
         L.append("Definition %s : list Z :=\n  %s." % (s, coq_list(K[s])))
@@ -492,6 +512,207 @@ GAP_STARTS = [1425172824437699411, 18361375334787046697, 804212830686677669, 169
               2010733, 20831323, 436273009, 4302407359, 10726904659, 25056082087]
 
 
+# ------------------------------------------------------------------ scripted random walks
+# The harness compiles IntFactorDom<ScriptRand>, whose random numbers come from the input line.  To CHOOSE scripts that
+# drive a wanted path (Pollard answers with a composite factor k times in a row, restarts after g == n, exhausts its
+# loop budget) the check needs to know what the walk does with a start value: rho_sim is that walk (Brent's variant as
+# coded in givintfactor.inl, third implementation next to the C++ and the extracted Coq model; used ONLY to pick
+# scripts and to name the path -- verdicts come from the specification oracle and from the model correspondence).
+
+def rho_sim(n, y0, thr, cst):
+    """-> (g, c) on leaving the loop of Pollard(gen, g, n, thr) started at y0"""
+    x, y, m, p, c = 0, y0 % n, 0, 1, 0
+    while True:
+        c += 1
+        if thr and not c < thr:
+            return 1, c
+        m += 1
+        if p == m:
+            x = y; p *= 2
+        y = (y * y + cst) % n
+        g = math.gcd(y - x, n)
+        if g != 1:
+            return g, c
+
+
+def pick_start(n, thr, want, base, cst, limit=40000):
+    """least y >= base whose walk modulo n ends as wanted: 'composite' / 'prime' (a proper factor of that kind),
+    'restart' (g == n: failure with the initial value), 'one' (budget exhausted); None when there is none below base+limit"""
+    for y in range(base, base + limit):
+        g, c = rho_sim(n, y, thr, cst)
+        restart = g == n and (thr == 0 or c < thr)
+        if want == "restart":
+            if restart:
+                return y
+        elif want == "one":
+            if g == 1:
+                return y
+        elif not restart and g not in (1, n):
+            if (want == "composite") != is_prime(g):
+                return y
+    return None
+
+
+class ScriptSim:
+    """simulates factor / iffactorprime / primefactor / set on n, choosing each random start according to a plan"""
+
+    def __init__(self, K, plan, base, greedy=False):
+        self.K, self.plan, self.base, self.greedy = K, list(plan), base, greedy
+        self.ys, self.events, self.unsat = [], [], 0
+
+    def draw(self, n, thr):
+        want = self.plan.pop(0) if self.plan else ("composite" if self.greedy else "prime")
+        y = pick_start(n, thr, want, self.base, self.K["POLLARD_CST"])
+        if y is None and want == "composite":
+            y = pick_start(n, thr, "prime", self.base, self.K["POLLARD_CST"])
+        if y is None:
+            self.unsat += 1; y = self.base
+        self.base += 1
+        self.ys.append(y)
+        return y
+
+    def pollard(self, n, thr):
+        while True:
+            if n < 3 or is_prime(n):
+                return n
+            g, c = rho_sim(n, self.draw(n, thr), thr, self.K["POLLARD_CST"])
+            if g == n and (thr == 0 or c < thr):
+                self.events.append("restart")
+                thr = thr - c if thr else 0
+                continue
+            self.events.append("one" if g == 1 else ("prime" if is_prime(g) else "composite"))
+            return g
+
+    def factor(self, n, thr):
+        K = self.K
+        if math.gcd(n, K["PROD_FIRST"]) != 1:
+            return next((r for t, r in K["FIRST_TESTS"] if n % t == 0), K["FIRST_DEFAULT"])
+        if math.gcd(n, K["PROD_SECOND"]) != 1:
+            return next((r for t, r in K["SECOND_TESTS"] if n % t == 0), K["SECOND_DEFAULT"])
+        return self.pollard(n, thr)
+
+    def iffactorprime(self, n, thr):
+        r = self.factor(n, thr)
+        if r == 1:
+            return r
+        if not is_prime(r):
+            r = self.factor(r, thr)
+        while not is_prime(r):
+            nn = r
+            r = self.factor(nn, thr)
+            self.events.append("loop")
+            if r == nn:
+                break
+        return r
+
+    def set2(self, n, thr):
+        nn = abs(n)
+        while nn > 1:
+            g = self.iffactorprime(nn, thr)
+            if g in (0, 1) or nn % g:
+                g = nn
+            while nn % g == 0:
+                nn //= g
+
+
+def path_name(events):
+    k = events.count("composite")
+    s = "walk answered composite %dx" % k
+    if "restart" in events:
+        s += ", restart after g == n"
+    if "one" in events:
+        s += ", loop budget exhausted -> 1"
+    if "loop" in events:
+        s += ", %d pass(es) through the re-split loop" % events.count("loop")
+    return s
+
+
+def scripted_cases(rng, K, add, thorough):
+    """deterministic part: every path class on fixed n, for every seed; plus the same plans on seed-dependent n"""
+    P = [x for x in SMALLP if 101 <= x <= 499]
+    N6 = 101 * 103 * 107 * 109 * 113 * 127
+    fixed = [(N6, {101: 1, 103: 1, 107: 1, 109: 1, 113: 1, 127: 1}), (N6 * 131, {101: 1, 103: 1, 107: 1, 109: 1, 113: 1, 127: 1, 131: 1})]
+    rnd = []
+    for k in range(3 if not thorough else 40):
+        ps = set()
+        while len(ps) < 5 + k % 3:
+            ps.add(rng.choice(P))
+        rnd.append((prod_fac({p: 1 for p in ps}), {p: 1 for p in ps}))
+    extra = " ".join(str(x) for x in range(900, 912))        # spare script values: a mutant may draw more than the plan
+
+    def emit(v, n, thr, plan, f, greedy=False, base=0):
+        sim = ScriptSim(K, plan, base, greedy)
+        if v in ("s.pollard", "s.pollard.ip"):
+            sim.pollard(n, thr)
+        elif v in ("s.factor", "s.factor.ip"):
+            sim.factor(n, thr)
+        elif v in ("s.iffactorprime", "s.primefactor", "s.iffactorprime.ip", "s.primefactor.ip"):
+            sim.iffactorprime(n, thr)
+        else:
+            sim.set2(n, thr)
+        add(v, [n, thr] + sim.ys + list(range(900, 912)), "scripted", f, path_name(sim.events) + (" (plan not satisfiable)" if sim.unsat else ""))
+
+    for n, f in fixed + rnd:
+        depth_max = min(len(f) - 2, 5)
+        for d in range(depth_max + 1):
+            plan = ["composite"] * d + ["prime"]
+            for v in ("s.iffactorprime", "s.primefactor"):
+                emit(v, n, 0, plan, f, base=rng.range(0, 50))
+            for v in ("s.set2", "s.divisors", "s.set1", "s.write", "s.set2.list"):
+                if d >= 1 and (v in ("s.set2", "s.divisors") or (n, f) in fixed or d == 2):
+                    emit(v, n if v != "s.write" else -n, 0, plan, f, greedy=True, base=rng.range(0, 50))
+        emit("s.pollard", n, 0, ["composite"], f, base=rng.range(0, 50))
+        emit("s.factor", n, 0, ["composite"], f, base=rng.range(0, 50))
+        emit("s.pollard", n, 0, ["prime"], f, base=rng.range(0, 50))
+    # restart (g == n): at the first call, in the one-shot re-split, inside the loop
+    for ps, plan in (((101, 103), ["restart", "prime"]), ((101, 103, 107), ["composite", "restart", "prime"]),
+                     ((101, 103, 107, 109), ["composite", "composite", "restart", "prime"]), ((211, 223), ["restart", "restart", "prime"])):
+        f = {p: 1 for p in ps}
+        n = prod_fac(f)
+        for v in ("s.iffactorprime", "s.primefactor", "s.set2", "s.divisors", "s.pollard", "s.factor"):
+            emit(v, n, 0, plan[:2] if v in ("s.pollard", "s.factor") and plan[0] == "restart" else plan, f, base=rng.range(0, 20))
+    # bounded walks (loops > 0): budget exhausted at the first call / in the one-shot re-split / inside the loop; restart with a budget
+    f6 = fixed[0][1]
+    for thr, plan in ((1, ["one"]), (2, ["one"]), (7, ["one"]), (7, ["composite", "one"]), (7, ["composite", "composite", "one"]), (8, ["composite", "composite", "prime"]),
+                      (40, ["composite", "prime"]), (9, ["prime"])):
+        for v in ("s.iffactorprime", "s.set2", "s.factor", "s.pollard"):
+            if v in ("s.factor", "s.pollard") and len(plan) > 1:
+                continue
+            emit(v, N6, thr, plan, f6, base=rng.range(0, 20))
+    for thr in (30, 12):
+        emit("s.iffactorprime", 101 * 103, thr, ["restart", "prime"], {101: 1, 103: 1}, base=rng.range(0, 20))
+        emit("s.pollard", 101 * 103, thr, ["restart", "one"], {101: 1, 103: 1}, base=rng.range(0, 20))
+    # in-place call forms (result object == argument): cascade-only n, n that needs the walk, primes, 1, 2
+    smalls = [4, 6, 9, 25, 49, 121, 13 * 13, 23 * 23, 2 * 23, 3 * 19, 29 * 31, 31 * 31, 97 * 97, 73 * 97, 2 * 101, 9 * 10007, 97 * 10007, 223092870, 1, 2, 3, 13, 97, 101, 10007]
+    for n in smalls:
+        f = {}
+        m = n
+        for p in SMALLP:
+            while m % p == 0:
+                f[p] = f.get(p, 0) + 1; m //= p
+        if m > 1:
+            f[m] = 1
+        for v in ("s.factor.ip", "s.iffactorprime.ip", "s.primefactor.ip", "s.pollard.ip"):
+            if v == "s.pollard.ip" and n > 3 and not is_prime(n) and n not in (9 * 10007,):
+                continue
+            emit(v, n, 0, ["prime"], f, base=rng.range(0, 20))
+    for ps in ((101, 103), (101, 103, 107, 109), (10007, 10009)):
+        f = {p: 1 for p in ps}
+        n = prod_fac(f)
+        for v in ("s.factor.ip", "s.iffactorprime.ip", "s.primefactor.ip"):
+            emit(v, n, 0, ["composite", "composite", "prime"], f, base=rng.range(0, 20))
+        emit("s.pollard.ip", n, 9, ["prime"], f, base=rng.range(0, 20))
+    emit("s.lenstra.ip", 10403, 0, [], {101: 1, 103: 1})
+    emit("s.lenstra.ip", 10007, 0, [], {10007: 1})
+    emit("s.lenstra.ip", 4 * 10007, 0, [], {2: 2, 10007: 1})
+    # Miller with a chosen witness: 0, 1, n-1, small and random witnesses for primes; strong liars and witnesses for composites
+    for n in [5, 7, 11, 13, 17, 97, 257, 65537, 1009, 2147483647, 18446744073709551557] + [rand_prime(rng, rng.range(5, 90)) for _ in range(6)]:
+        for a in [0, 1, n - 1, 2, 3, n // 2, rng.range(2, n - 2), n, 2 * n + 3]:
+            add("s.miller", [n, 0, a, 2, 3], "smiller", {n: 1}, "witness 0" if a % n == 0 else "prime n")
+    for n, a in ((2047, 2), (2047, 3), (9, 8), (9, 2), (15, 4), (15, 14), (561, 50), (561, 2), (1373653, 2), (1373653, 3), (1373653, 5), (25, 7), (91, 10), (4, 3), (1, 0), (0, 0), (2, 1), (3, 2), (-7, 3)):
+        add("s.miller", [n, 0, a, 2, 3], "smiller", None, "composite / edge n")
+
+
 # ------------------------------------------------------------------ case generation
 # a case: dict(v=variant, args=[ints], kind=..., fac={p:e} or None, klass=str)
 
@@ -507,7 +728,7 @@ def small_smooth(rng, maxp_idx, maxfac, maxexp):
     return fac
 
 
-def gen_cases(rng, tier, chk):
+def gen_cases(rng, tier, chk, K=None):
     thorough = tier != "quick"
     C = []
 
@@ -726,6 +947,28 @@ def gen_cases(rng, tier, chk):
         f = {p: 1, q: 1}
         for v in ("divisors.n", "set2.vec", "write", "set1.vec", "primefactor"):
             add(v, [p * q if v != "write" else -p * q], "factor1" if v == "primefactor" else "set", f, "semiprime ~2^75")
+    # ---- E. scripted random walks, in-place call forms, Miller with a chosen witness
+    if K:
+        scripted_cases(rng, K, add, thorough)
+    # ---- F. every operation with an output parameter, called with the output being the input object: exhaustive sweeps
+    add("nextrange.alias", [-6, hi], "nprange", klass="exhaustive, in place")
+    add("prevrange.alias", [4, hi], "nprange", klass="exhaustive, in place")
+    add("pprevrange.alias", [4, hi], "nprange", klass="exhaustive, in place")
+    add("pnextrange", [-6, 20000], "nprange", klass="exhaustive")
+    add("pnextrange.alias", [-6, 20000], "nprange", klass="exhaustive, in place")
+    for p in (2, 3, 7, 31, 997, 1009, 1013, 65537):
+        for e in (1, 2, 3, 4, 6, 9):
+            add("ipp.alias", [p ** e], "ipp", {p: e}, "in place")
+        add("ipp.alias", [p ** 2 * 1019], "ipp", {p: 2, 1019: 1}, "in place")
+        add("ipp.alias", [-(p ** 3)], "ipp", {p: 3}, "n<0")
+    add("ipp.alias", [1009 ** 1009], "ipp", {1009: 1009}, "in place")
+    add("ipp.alias", [0], "ipp", None, "edge")
+    add("ipp.alias", [1], "ipp", {}, "edge")
+    for fz in ({2: 2, 3: 1}, {2: 1}, {3: 3, 5: 2, 7: 1}, {101: 1, 103: 2}, {2: 5, 65537: 1}):
+        a = []
+        for p, e in fz.items():
+            a += [p, e]
+        add("divisors.lf.alias", a, "divlf", fz, "in place")
     chk.cov["cases_by_kind"] = {}
     for c in C:
         chk.cov["cases_by_kind"][c["kind"]] = chk.cov["cases_by_kind"].get(c["kind"], 0) + 1
@@ -775,7 +1018,15 @@ def model_line(c, out):
     if c["kind"] == "range":
         return "%s %d %d" % (v, a[0], a[1])
     if c["kind"] == "nprange":
-        return "%s %d %d" % (v, a[0], a[1])
+        return None if v.startswith("pnext") else "%s %d %d" % (v, a[0], a[1])       # Protected::nextprime is GMP's mpz_nextprime: no model
+    if v.startswith("s."):
+        if v in ("s.primefactor.ip", "s.lenstra.ip"):
+            return None                                                              # specification only
+        return "%s %s" % (v, " ".join(str(x) for x in a))
+    if v == "ipp.alias":
+        return "ipp.alias %d" % a[0]
+    if v == "divisors.lf.alias":
+        return "divisors.lf.alias " + " ".join(map(str, a))
     if v in ("isprime", "isprime.r", "isprime.fd"):
         return "isprime %d" % a[0]
     if v in ("local_prime", "local_prime.r", "probab_prime", "probab_prime.r"):
@@ -832,11 +1083,13 @@ def norm_impl(c, out):
     v = c["v"]
     if out.startswith("HANG") or out.startswith("CRASH"):
         return "NONE"
+    if v == "s.miller":
+        return out.split("|")[0].strip()
     if v in ("next.ret", "prev.ret"):
         return out.split()[0] if out.split() else out
     if v == "divisors.lf":
         return out.split(" ; ")[0].strip()
-    if v == "ipp":
+    if v in ("ipp", "ipp.alias"):
         t = out.split()
         if len(t) == 2 and t[0] == "0":
             return "0"                      # q is unspecified when the return value is 0
@@ -844,7 +1097,9 @@ def norm_impl(c, out):
 
 
 def norm_model(c, out):
-    if c["v"] == "ipp":
+    if c["v"].startswith("s."):
+        return out.split("#")[0].strip()    # the tail "# passes" is evidence (how often the re-split loop ran), not output
+    if c["v"] in ("ipp", "ipp.alias"):
         t = out.split()
         if len(t) == 2 and t[0] == "0":
             return "0"
@@ -872,7 +1127,39 @@ SITE = {"isprime": "IntPrimeDom::isprime", "isprime.r": "IntPrimeDom::isprime", 
         "set2.loops": "IntFactorDom::set(Lf,Lo,n,loops)", "set1.vec": "IntFactorDom::set(Lf,n)", "set1.list": "IntFactorDom::set(Lf,n)",
         "write": "IntFactorDom::write", "write.L": "IntFactorDom::write", "divisors.n": "IntFactorDom::divisors(L,n)",
         "divisors.lf": "IntFactorDom::divisors(L,Lf,Le)", "divisors.lf.list": "IntFactorDom::divisors(L,Lf,Le)",
-        "erat": "IntFactorDom::Erathostene(Lf,n)", "ipp": "IntPrimeDom::isprimepower", "primes16": "Primes16"}
+        "erat": "IntFactorDom::Erathostene(Lf,n)", "ipp": "IntPrimeDom::isprimepower", "primes16": "Primes16",
+        "ipp.alias": "IntPrimeDom::isprimepower(in place)", "divisors.lf.alias": "IntFactorDom::divisors(L,Lf,Le)(in place)",
+        "nextrange.alias": "IntPrimeDom::nextprime(aliased)", "prevrange.alias": "IntPrimeDom::prevprime(aliased)",
+        "pprevrange.alias": "Protected::prevprime(in place)", "pnextrange": "Protected::nextprime", "pnextrange.alias": "Protected::nextprime(in place)",
+        "s.pollard": "IntFactorDom::Pollard", "s.factor": "IntFactorDom::factor", "s.iffactorprime": "IntFactorDom::iffactorprime",
+        "s.primefactor": "IntFactorDom::primefactor", "s.set2": "IntFactorDom::set(Lf,Lo,n)", "s.set2.list": "IntFactorDom::set(Lf,Lo,n)",
+        "s.set1": "IntFactorDom::set(Lf,n)", "s.write": "IntFactorDom::write", "s.divisors": "IntFactorDom::divisors(L,n)",
+        "s.pollard.ip": "IntFactorDom::Pollard(in place)", "s.lenstra.ip": "IntFactorDom::Lenstra(in place)", "s.factor.ip": "IntFactorDom::factor(in place)",
+        "s.iffactorprime.ip": "IntFactorDom::iffactorprime(in place)", "s.primefactor.ip": "IntFactorDom::primefactor(in place)",
+        "s.miller": "IntPrimeDom::Miller"}
+# scripted call form -> the call form whose specification it shares
+S_MAP = {"s.pollard": "pollard", "s.factor": "factor", "s.iffactorprime": "iffactorprime", "s.primefactor": "primefactor",
+         "s.set2": "set2.vec", "s.set2.list": "set2.list", "s.set1": "set1.vec", "s.write": "write", "s.divisors": "divisors.n",
+         "s.pollard.ip": "pollard", "s.lenstra.ip": "lenstra", "s.factor.ip": "factor", "s.iffactorprime.ip": "iffactorprime", "s.primefactor.ip": "primefactor"}
+
+
+def miller_spec(n, a):
+    """one round of the strong probable-prime test to the base a (the definition)"""
+    if n < 2:
+        return 0
+    if n <= 3:
+        return 1
+    t, sft = n - 1, 0
+    while t % 2 == 0:
+        t //= 2; sft += 1
+    q = pow(a % n, t, n)
+    if q in (1, n - 1):
+        return 1
+    for _ in range(sft - 1):
+        q = q * q % n
+        if q == n - 1:
+            return 1
+    return 0
 
 
 def ipp_class(c):
@@ -902,6 +1189,46 @@ def spec_check(chk, c, out, K, sv):
         return True
 
     kind = c["kind"]
+    if kind == "scripted":
+        # "<answer> | <script values used> <draws beyond the script>"; the answer obeys the specification of the plain call form
+        body, _, tail = out.partition("|")
+        inplace = v.endswith(".ip")
+        kl = "in place" if inplace else c["klass"]
+        if hang:
+            if v == "s.lenstra.ip" and out.startswith("HANG") and K and K.get("LENSTRA_INPLACE_GUARD"):
+                return False
+            return fail(kl, "an answer", "the call did not return within its time budget / raised a signal (%s)" % out)
+        body = body.strip()
+        if inplace:
+            bt = body.split()
+            if len(bt) != 2 or bt[1] != "1":
+                return fail(kl, "returns its first argument", "returned reference is not the destination")
+            body = bt[0]
+        thr = a[1]
+        mapped = S_MAP[v]
+        if thr and mapped in ("pollard", "factor", "iffactorprime"):
+            mapped += ".loops"
+        if thr and mapped in ("set2.vec", "set2.list"):
+            mapped = "set2.loops"
+        c2 = {"v": mapped, "args": [a[0], thr] if thr else [a[0]], "kind": "factor1" if mapped.split(".")[0] in ("pollard", "factor", "iffactorprime", "primefactor", "lenstra") else "set",
+              "fac": f, "klass": kl}
+        sub = vf.Check.__new__(vf.Check)
+        sub.failing = []
+        wrong = spec_check(sub, c2, body, K, sv)
+        for fi in sub.failing:
+            chk.fail_input(site, kl, {"variant": v, "args": [str(x) for x in a]}, fi["expected"], out[:300], fi["detail"])
+        return wrong
+    if kind == "smiller":
+        n, aw = a[0], a[2]
+        got = to_int(out.split("|")[0].strip()) if not hang else None
+        nonzero = bool(K and K.get("MILLER_NONZERO"))
+        w = next((x % n for x in a[2:] if not (nonzero and x % n == 0)), None) if n > 3 else 0
+        want = miller_spec(n, w) if w is not None else None
+        if n >= 2 and is_prime(n):
+            want = 1                                   # a prime passes whatever the witness
+        if got is None or (want is not None and got != want):
+            return fail(c["klass"], want, "Miller(g, n) with the witness sequence %s" % a[2:5])
+        return False
     if kind == "range":
         lo, hi = a
         if hang or len(out) != hi - lo:
@@ -930,12 +1257,12 @@ def spec_check(chk, c, out, K, sv):
         if hang or len(got) != hi - lo:
             return fail(c["klass"], "%d values" % (hi - lo), "range call did not complete")
         bad = False
-        nxt = v.startswith("next")
+        nxt = "next" in v
         for i, g in enumerate(got):
             p = lo + i
             want = next_small(p, sv) if nxt else prev_small(p, sv)
             if g != want:
-                chk.fail_input(site, "p=%d" % p if p <= 3 else "p<2^16+", {"variant": v.replace("range", ".na") if "." not in v else v, "args": [str(p)]}, want, g,
+                chk.fail_input(site, "p=%d" % p if p <= 3 else "p<2^16+", {"variant": {"nextrange.alias": "next.alias", "prevrange.alias": "prev.alias", "pprevrange.alias": "pprev.alias", "pnextrange": "pnext", "pnextrange.alias": "pnext.alias", "pprevrange": "pprev"}.get(v, v.replace("range", ".na") if "." not in v else v), "args": [str(p)]}, want, g,
                                "not the closest prime %s p" % ("above" if nxt else "below"))
                 bad = True
         return bad
@@ -1066,6 +1393,8 @@ def spec_check(chk, c, out, K, sv):
         return False
     if kind == "ipp":
         n = a[0]
+        if n == 0:
+            return fail("n=0", 0, "0 is not a prime power") if toks[:1] != ["0"] else False
         e = to_int(toks[0]) if toks else None
         q = to_int(toks[1]) if len(toks) > 1 else None
         if e is None:
@@ -1200,7 +1529,7 @@ def main(tier, replay=None):
         return 0
     lap("build")
     sv = sieve(1 << 17)
-    cases = gen_cases(rng, tier, chk)
+    cases = gen_cases(rng, tier, chk, K)
     lap("generate")
     impl_in = "".join("%s %s\n" % (c["v"], " ".join(str(x) for x in c["args"])) for c in cases)
     rc, iout, ierr = vf.run_lines(himpl, impl_in, timeout=1500, args=["12" if tier == "quick" else "90"])
